@@ -244,6 +244,43 @@ func (d *deriver) ifaceOpaque1(i int) (*interp.Opaque, interp.Value) {
 			id := fmt.Sprintf("tp%d_%d", i, k)
 			ct := d.typeOpaque(id+".constraint", tp.TypeText, nil)
 			ct.Attrs["explicit"] = interp.Lit(tp.Explicit)
+			// what go/types says about the constraint's type set, for a generator that asks it directly
+			// (explicitConstraintType called while the data is built): an interface that embeds one union
+			// whose first term is the representative basic type, or nothing
+			{
+				explicit := tp.Explicit
+				var embedded []*interp.Opaque
+				if explicit != "" {
+					basic := &interp.Opaque{Kind: "types.Type", ID: id + ".repr", GoType: "*go/types.Basic", Attrs: map[string]interp.Value{"text": interp.Tok(explicit), "unqualified": true}, Methods: methods{
+						"String": opaqueMethod(interp.Lit(explicit)), "Name": opaqueMethod(interp.Lit(explicit)),
+					}}
+					basic.Methods["Underlying"] = opaqueMethod(basic)
+					term := &interp.Opaque{Kind: "types.Term", ID: id + ".term0", GoType: "*go/types.Term", Methods: methods{"Type": opaqueMethod(basic), "Tilde": opaqueMethod(true)}}
+					union := &interp.Opaque{Kind: "types.Type", ID: id + ".union", GoType: "*go/types.Union", Methods: methods{
+						"Len": opaqueMethod(int64(2)),
+						"Term": func(m *interp.Machine, pos token.Pos, args []interp.Value) (interp.Value, error) {
+							if i, ok := args[0].(int64); ok && i == 0 {
+								return term, nil
+							}
+							return &interp.Unknown{Why: "a later term of the constraint's union"}, nil
+						},
+					}}
+					embedded = append(embedded, union)
+				}
+				n := int64(len(embedded))
+				under := &interp.Opaque{Kind: "types.Type", ID: id + ".constraint.under", GoType: "*go/types.Interface", Methods: methods{
+					"NumEmbeddeds": opaqueMethod(n),
+					"NumMethods":   opaqueMethod(int64(0)), "NumExplicitMethods": opaqueMethod(int64(0)),
+					"EmbeddedType": func(m *interp.Machine, pos token.Pos, args []interp.Value) (interp.Value, error) {
+						if i, ok := args[0].(int64); ok && i >= 0 && i < n {
+							return embedded[i], nil
+						}
+						m.Notes = append(m.Notes, interp.Note{Rule: "H-PANIC", Key: "embedded-index@" + m.Prog.Pos(pos), Pos: pos, Msg: fmt.Sprintf("go/types Interface.EmbeddedType(%s) with %d embedded types would panic", interp.Show(args[0]), n)})
+						return &interp.Unknown{Why: "EmbeddedType out of range"}, nil
+					},
+				}}
+				ct.Methods["Underlying"] = opaqueMethod(under)
+			}
 			obj := &interp.Opaque{Kind: "types.TypeName", ID: id + ".obj", GoType: "*go/types.TypeName", Methods: methods{
 				"Pkg":  opaqueMethod(d.srcPkg()),
 				"Name": opaqueMethod(interp.Tok(tp.Name)),
